@@ -9,7 +9,7 @@ ST = "verif-stubs/async_backend.py"
 def register(R):
     R.stubs("stubs/async_backend.py", "stubs.async_backend")
     R.external("contextlib.ExitStack", "stubs.async_backend.ExitStack")
-    R.ghost(locks_held="int")
+    R.ghost(locks_held="nat")
     R.assume("cooperative scheduling: a cancellation is delivered only at a suspension point (cancel_point() in the backend models); "
              "a cancel scope swallows only CancelledError raised in its own body")
     R.assume("aclose() of an abstract (wrapped) transport requests the close on entry, whatever its outcome (assumed contract)")
@@ -111,7 +111,7 @@ def register_tls(R):
         ]},
         modifies=["self.__closing", "self.__closed.flag", "self._transport.close_requested", "self._read_bio.eof", "self._write_bio.eof",
                   "self._data_deque.items", "self.__incoming_reader.buffer", "self.__incoming_reader.buffer_view", "ghost.WIRE", "ghost.IN", "ghost.TLSOUT",
-                  "ghost.tls_cause", "ghost.recv_calls", "ghost.EOF", "ghost.io_errors", "ghost.locks_held", "self._read_bio.pending", "self._write_bio.pending",
+                  "ghost.tls_cause", "ghost.tls_ops_returned", "ghost.recv_calls", "ghost.EOF", "ghost.io_errors", "ghost.locks_held", "self._read_bio.pending", "self._write_bio.pending",
                   "self.__transport_send_lock.held_by_me", "self.__transport_recv_lock.held_by_me", "self.__incoming_reader.buffer.data", ],
         requires=[("transport-locks-free-at-entry", "not self.__transport_send_lock.held_by_me and not self.__transport_recv_lock.held_by_me")],
         tags="C14",
@@ -135,7 +135,7 @@ def register_tls_wrap(R):
         raises={"BaseException": [
             ("failed-or-cancelled-handshake-closes-the-wrapped-transport", "transport.close_requested", "C14"),
         ]},
-        modifies=["transport.close_requested", "ghost.WIRE", "ghost.IN", "ghost.TLSOUT", "ghost.tls_cause", "ghost.recv_calls", "ghost.EOF",
+        modifies=["transport.close_requested", "ghost.WIRE", "ghost.IN", "ghost.TLSOUT", "ghost.tls_cause", "ghost.tls_ops_returned", "ghost.recv_calls", "ghost.EOF",
                   "ghost.io_errors", "ghost.locks_held"],
         tags="C14",
     )
